@@ -109,8 +109,103 @@ example :
 
 end Sinks
 
+
+/-! ### formatter-backed stream over a buffering writer -/
+namespace Sinks.FmtBuf
+
+/-- nothing accepted is ever lost, duplicated or reordered between buffer and wire -/
+theorem run_conserves (w : W) (ops : List Op) :
+    (run w ops).1.delivered ++ (run w ops).1.buf = w.delivered ++ w.buf ++ written ops := by
+  induction ops generalizing w with
+  | nil => simp [run, written]
+  | cons op ops ih =>
+    cases op with
+    | next bs => simp only [run, step, written]; rw [ih]; simp
+    | flush ok => cases ok <;> simp only [run, step, written] <;> rw [ih] <;> simp
+
+/-- every stream flush reaches the writer: the writer sees exactly as many `flush` calls as the stream -/
+theorem run_flushCalls (w : W) (ops : List Op) :
+    (run w ops).1.flushCalls = w.flushCalls + (ops.filter (fun o => match o with | .flush _ => true | _ => false)).length := by
+  induction ops generalizing w with
+  | nil => simp [run]
+  | cons op ops ih =>
+    cases op with
+    | next bs => simp only [run, step]; rw [ih]; simp
+    | flush ok => cases ok <;> simp only [run, step] <;> rw [ih] <;> simp <;> omega
+
+/-- results: `next` is `Ok`, `flush` returns what the writer's flush returned -/
+theorem run_results (w : W) (ops : List Op) :
+    (run w ops).2 = ops.map (fun o => match o with | .next _ => true | .flush ok => ok) := by
+  induction ops generalizing w with
+  | nil => simp [run]
+  | cons op ops ih =>
+    cases op with
+    | next bs => simp only [run, step, List.map_cons]; rw [ih]
+    | flush ok => cases ok <;> simp only [run, step, List.map_cons] <;> rw [ih]
+
+/-- **C16: a flush error is not sticky.** Whatever happened before (failed flushes included), after a
+stream flush whose writer flush succeeds, everything accepted so far is on the wire and the buffer
+is empty. -/
+theorem c16_flush_after_error_delivers (ops : List Op) :
+    (run init (ops ++ [.flush true])).1.buf = [] ∧
+    (run init (ops ++ [.flush true])).1.delivered = written ops := by
+  have hrun : ∀ (w : W) (a b : List Op), (run w (a ++ b)).1 = (run (run w a).1 b).1 := by
+    intro w a b
+    induction a generalizing w with
+    | nil => simp [run]
+    | cons op a ih => simp only [List.cons_append, run]; exact ih _
+  have h1 : (run init (ops ++ [.flush true])).1.buf = [] := by
+    rw [hrun]; simp [run, step]
+  refine ⟨h1, ?_⟩
+  have h := run_conserves init (ops ++ [.flush true])
+  rw [h1] at h
+  have hw : ∀ (a b : List Op), written (a ++ b) = written a ++ written b := by
+    intro a b
+    induction a with
+    | nil => simp [written]
+    | cons op a ih => cases op <;> simp [written, ih]
+  simpa [init, hw, written] using h
+
+/-- the immediate sink over such a stream: after the last append whose flush succeeded nothing is
+left behind, however many earlier flushes failed -/
+theorem c16_imm_last_ok_delivers (es : List (List Nat × Bool)) (bs : List Nat) :
+    (run init (immOps (es ++ [(bs, true)]))).1.delivered = written (immOps (es ++ [(bs, true)])) ∧
+    (run init (immOps (es ++ [(bs, true)]))).1.buf = [] := by
+  have himm : ∀ (a b : List (List Nat × Bool)), immOps (a ++ b) = immOps a ++ immOps b := by
+    intro a b
+    induction a with
+    | nil => simp [immOps]
+    | cons e a ih => obtain ⟨x, y⟩ := e; simp [immOps, ih]
+  have hw : ∀ (a b : List Op), written (a ++ b) = written a ++ written b := by
+    intro a b
+    induction a with
+    | nil => simp [written]
+    | cons op a ih => cases op <;> simp [written, ih]
+  have := c16_flush_after_error_delivers (immOps es ++ [.next bs])
+  rw [himm]
+  simp only [immOps, List.append_assoc, List.cons_append, List.nil_append] at this ⊢
+  refine ⟨?_, this.1⟩
+  rw [this.2]; simp [hw, written]
+
+/-- Witness that the statement has content: the "dirty flag" variant (flag cleared before the flush
+result is known) leaves an accepted entry in the buffer after `next, flush ✗, flush ✓`, while the
+modelled code delivers it. -/
+example :
+    let ops := [Op.next [1, 2, 3], .flush false, .flush true]
+    (run init ops).1.delivered = [1, 2, 3] ∧ (run init ops).1.flushCalls = 2 ∧
+    ((ops.foldl (fun s o => (stepDirty s o).1) (init, false)).1.delivered = [] ∧
+     (ops.foldl (fun s o => (stepDirty s o).1) (init, false)).1.buf = [1, 2, 3]) := by
+  decide
+
+end Sinks.FmtBuf
+
 #print axioms Sinks.c16_tee_next
 #print axioms Sinks.c16_tee_flush
 #print axioms Sinks.c16_immediate_errors_local
 #print axioms Sinks.c16_results_irrelevant
 #print axioms Sinks.c16_single_stream_sees_all
+#print axioms Sinks.FmtBuf.run_conserves
+#print axioms Sinks.FmtBuf.run_flushCalls
+#print axioms Sinks.FmtBuf.run_results
+#print axioms Sinks.FmtBuf.c16_flush_after_error_delivers
+#print axioms Sinks.FmtBuf.c16_imm_last_ok_delivers
